@@ -168,7 +168,7 @@ func (x *xl) coqType(n ast.Node, t types.Type) string {
 }
 
 func (x *xl) record(n ast.Node, nm *types.Named) string {
-	name := "go_" + nm.Obj().Name()
+	name := "go_" + nm.Obj().Pkg().Name() + "_" + nm.Obj().Name()
 	if _, ok := x.records[name]; !ok {
 		x.records[name] = nm
 		st := nm.Underlying().(*types.Struct)
